@@ -44,3 +44,17 @@ TEXT = dict(
     text='END TO END (FitProps/C01E2E.lean, composed from the wire theorems below, C10_post / C10_validate_filter, the C06 value lemmas and a bridge between the two decoder models): C01_e2e_actual — every chain of files the encoder accepts (real validator model, state threaded, every option combination) decodes, sequence by sequence, to exactly what validation retained: message numbers in order, every field under its base type with the value Fit.E2E.reread gives (independent of the byte order), every developer field under the FIRST field description of (developer data index, number) — the one the validator resolved —, every compressed timestamp reconstructed in full (the message with that timestamp in front). C01_e2e_roundtrip_partial — outside three finding classes what comes back is the NORMAL FORM fixed in DESIGN §3 (Fit.E2E.normalValue: one element = scalar unless the factory says array, strings cut at NUL / split into non-empty pieces, profile-bool fields as typedef.Bool, header-borne timestamp first). C01_e2e_reencode_partial — messages whose values are in normal form (what a decoder returns) come back AS THEY ARE when encoded and decoded again (last sentence of the property). Refuted at full strength on kernel-evaluated witnesses: C01_e2e_full_fails_arr (F03: []uint8{70,71} in record.heart_rate decodes as 70), _zero (F04: a preserved zero-length array is skipped by the decoder), _fffd (F02: U+FFFD dropped) — three open findings, each with witness and --kf class. C01_e2e_reencode_boolarr_roundtrip: the witness of the fourth finding (KF-C01-boolarr, repaired in /repo 5da5106: UnmarshalValue now clamps the elements of a typedef.Bool array above 1 to BoolInvalid as proto.Bool does for one value) — the bytes 1C 01 in a profile-bool array field decode as {255, 1}, the decoded message is accepted as it is, meets every hypothesis of C01_e2e_reencode_partial (it is in wire-normal form now) and therefore comes back as itself; the value layer of the re-encoding sentence is C06_unmarshal_reencode_partial (any bytes, every numeric base type). WIRE LEVEL: C01_wire_records / C01_wire_sequence / C01_wire_chain: for every message list, byte order, header option, 1..16 local message types (every LRU eviction pattern), 12/14-byte headers, with or without checksum, single and chained files, whatever factory the decoder has, decoding what the encoder wrote returns the same message numbers in order with the same fields, developer fields and (for compressed-timestamp records) the original full timestamp — for ALL timestamp histories: going backwards inside or beyond the 32 s window, repeated, invalid, below DateTimeMin, several fields 253 in a message, fields 253 of any type and size (invariant: the encoder\'s lastTimestamp is 0 = "cannot tell" or exactly the decoder\'s active timestamp; a timestamp is compressed only within 32 s of both the roll-over reference and that last timestamp). The value layer (unmarshal∘marshal) is C06; the validated form of a message is C10. History: the pinned tree violated this for non-monotonic / invalid / duplicated / oddly typed timestamps (finding KF-C01-ts, found by this check, fixed in /repo by 1fdeae5); C01_ts_nonmonotone_roundtrip evaluates the former witness (t, t+20, t+5 came back as t, t+20, t+37) in the kernel, C01_ts_wild_roundtrip a history with all the oddities; C01_fix_conservative: on valid, unique, non-decreasing timestamps the repaired encoder model writes byte for byte what the pinned tree\'s encoder model wrote.',
     note='Trusted: Lean kernel; the hand-written wire model (tied, not verified, by encw/decw/rtw on the real packages); harness and driver parsers. Writer kind/buffering enter through C09; value interpretation by the decoder (profile look-ups, fallbacks) through the dec family once the value model is merged.',
 )
+
+# --- tie by translation (translators/go2lean, notes/go2lean.md; agreement theorems in lean/FitProps/C01Go2Lean.lean).
+# Kept as a separate block so that it never collides with edits of the dictionary above.
+PROP['regen'] = PROP['regen'] + ['go2lean:decoder', 'go2lean:encoder']
+PROP['go2lean_diff'] = ['Timestamp']      # lean/Go2LeanDiff/<Topic>.lean: search for a differing argument when an agreement theorem breaks
+PROP['theorems'] = PROP['theorems'] + [
+    'Fit.C01.C01_go2lean_dec_header',
+    'Fit.C01.C01_go2lean_dec_header_wire',
+    'Fit.C01.C01_go2lean_dec_field',
+    'Fit.C01.C01_go2lean_dec_field_wire',
+    'Fit.C01.C01_go2lean_dec_isCompressed',
+    'Fit.C01.C01_go2lean_enc_decide']
+PROP['trusted_base'] = PROP['trusted_base'] + [
+    "translators/go2lean (Go→Lean for a small subset of Go, notes/go2lean.md) re-translates the compressed-timestamp statement blocks of decoder/decoder.go (decodeMessageData, decodeFields) and encoder/encoder.go (compressTimestampIntoHeader), selected by function name + assigned variable from the current source on every run; the agreement theorems *_go2lean_* state that the translated functions equal the hand-written model functions for all arguments; trusted: the translator's rendering of the subset (go/types computes constants and types) and FitModel/GoPrelude.lean"]
